@@ -347,6 +347,16 @@ func (mf *MultiFileAppendable) Append(bs []byte) (off int64, n int, err error) {
 		available := mf.fileSize - int(mf.currApp.Offset())
 
 		if available <= 0 {
+			if !mf.retryableSync {
+				// sync() only covers the current appendable and, without retryable sync,
+				// switching to read-only mode only flushes: a finished chunk must be made
+				// durable now, a later Sync would not include it
+				err = mf.currApp.Sync()
+				if err != nil {
+					return off, n, err
+				}
+			}
+
 			// by switching to read-only mode, the write buffer is freed
 			err = mf.currApp.SwitchToReadOnlyMode()
 			if err != nil {
